@@ -303,9 +303,16 @@ namespace adept {
     bound_status = 0;
 
     // Ensure that initial x lies within the specified bounds
+#ifdef RJHOGAN_ADEPT_2_VERIF
+    Vector verif_x0;
+    if (internal::verif_minimizer_hook) { verif_x0 = x; }
+#endif
     bound_status.where(x >= max_x) =  1;
     bound_status.where(x <= min_x) = -1;
     x = max(min_x, min(x, max_x));
+#ifdef RJHOGAN_ADEPT_2_VERIF
+    { internal::VerifMinLog l("PROJ"); if (l.on()) l.v(verif_x0).v(min_x).v(max_x).v(x).iv(bound_status); }
+#endif
 
     int nbound = count(bound_status != 0);
     int nfree  = nx - nbound;
@@ -361,6 +368,11 @@ namespace adept {
       // Check whether the bound status of each state variable is
       // consistent with the gradient if a steepest descent were to be
       // taken, and if not flag a restart
+#ifdef RJHOGAN_ADEPT_2_VERIF
+      intVector verif_bs;
+      Vector verif_g;
+      if (internal::verif_minimizer_hook) { verif_bs = bound_status; verif_g = gradient; }
+#endif
       if (any(bound_status == -1 && gradient < 0.0)
 	  || any(bound_status == 1 && gradient > 0.0)) {
 	bound_status.where(bound_status == -1 && gradient < 0.0) = 0;
@@ -368,6 +380,9 @@ namespace adept {
 	unbound_status = 1.0-fabs(bound_status);
 	iteration_last_restart = n_iterations_;
       }
+#ifdef RJHOGAN_ADEPT_2_VERIF
+      { internal::VerifMinLog l("RELCG"); if (l.on()) l.iv(verif_bs).v(verif_g).iv(bound_status); }
+#endif
       nbound = count(bound_status != 0);
       nfree = nx - nbound;
 
@@ -393,9 +408,15 @@ namespace adept {
       // Convergence has been achieved if the L2 norm has been reduced
       // to a user-specified threshold
       if (gradient_norm_ <= converged_gradient_norm_) {
+#ifdef RJHOGAN_ADEPT_2_VERIF
+	{ internal::VerifMinLog l("CONV"); if (l.on()) l.iv(bound_status).v(gradient).i(nfree).r(gradient_norm_).r(converged_gradient_norm_).i(1); }
+#endif
 	status_ = MINIMIZER_STATUS_SUCCESS;
 	break;
       }
+#ifdef RJHOGAN_ADEPT_2_VERIF
+      { internal::VerifMinLog l("CONV"); if (l.on()) l.iv(bound_status).v(gradient).i(nfree).r(gradient_norm_).r(converged_gradient_norm_).i(0); }
+#endif
 
       // Store state and gradient differences
       if (n_iterations_ > iteration_last_restart) {
@@ -486,6 +507,9 @@ namespace adept {
 	}
       }
 
+#ifdef RJHOGAN_ADEPT_2_VERIF
+      { internal::VerifMinLog l("NB"); if (l.on()) l.v(x).v(direction).v(min_x).v(max_x).r(dir_scaling).r(bound_step_size).i(i_nearest_bound).i(i_bound_type); }
+#endif
       MinimizerStatus ls_status; // line-search outcome
       if (i_nearest_bound >= 0) {
 	// Perform line search, storing new state vector in x
@@ -507,6 +531,9 @@ namespace adept {
 				curvature_coeff);
       }
 
+#ifdef RJHOGAN_ADEPT_2_VERIF
+      { internal::VerifMinLog l("FLAG"); if (l.on()) l.iv(bound_status).v(x).v(min_x).v(max_x); }
+#endif
       if (ls_status == MINIMIZER_STATUS_SUCCESS) {
 	// Successfully minimized along search direction: continue to
 	// next iteration
